@@ -39,7 +39,7 @@ class Parameters:
         \newcommand{\aa}{å}
         \newcommand{\AE}{Æ}
         \newcommand{\ae}{æ}
-        \newcommand{\bibitem}[1]{\item}
+        \newcommand{\bibitem}[2][]{\item}
         \newcommand{\bibliographystyle}[1]{}
         \newcommand{\footnotemark}[1][]{}
         \newcommand{\hfill}{ }
